@@ -14,7 +14,7 @@ RULE = ('per case one generated bundle (CRC type 0/1/2 drawn per block, 0-2 exte
         'show no delivery, forward or report, and the clean copy must then be processed exactly once. Every bundle any node transmits is '
         're-decoded and each CRC recomputed bitwise. One evaluation = one corrupt reception; distinct = (bundle digest, flip).')
 COMPONENTS = bc.COMPONENTS
-PROBES = ('flip.octet_mask', 'flip.in_primary', 'flip.in_payload_block', 'flip.in_crc_field', 'flip.in_crc_type', 'flip.burst', 'class.malformed', 'class.crc_mismatch',
+PROBES = ('out.secured_checked', 'flip.octet_mask', 'flip.in_primary', 'flip.in_payload_block', 'flip.in_crc_field', 'flip.in_crc_type', 'flip.burst', 'class.malformed', 'class.crc_mismatch',
           'class.unprotected', 'out.bundles_checked')
 ASSUMPTIONS = ['a corrupted copy that still has valid CRCs everywhere (flip inside a block of CRC type 0) carries no requirement here',
                'schedules and clocks play no role: the deciding dimension is the corruption fault']
@@ -35,7 +35,8 @@ def gen(ch, tier):
                 pay_len=ch.choice('plen', (1, 5, 20, 24, 60)), blocks=blocks,
                 flags=ch.choice('flags', (0, 0, rfc9171.FLAG_RPT_DELIVERY | rfc9171.FLAG_RPT_RECEPTION, rfc9171.FLAG_RPT_FORWARD)),
                 window=ch.pick('window', 1 << 16), wsize=48 if tier == 'quick' else 160,
-                bursts=[[ch.pick('b.pos', 1 << 16), 2 + ch.pick('b.len', 15)] for _ in range(4)])
+                bursts=[[ch.pick('b.pos', 1 << 16), 2 + ch.pick('b.len', 15)] for _ in range(4)],
+                secured_output=ch.choice('secout', (None, None, 'bib', 'bcb', 'bib+bcb')))
     return plan
 
 
@@ -104,7 +105,39 @@ def execute(plan, sched, verbose=False):
         _drive(run, plan, har)
     finally:
         har.close()
+    if plan.get('secured_output') and not run.viols:
+        _secured_output(run, plan, sched)
     return run
+
+
+def _secured_output(run, plan, sched):
+    ''' Output clause for bundles that a transmit step rewrites late: a source node with a security policy (integrity,
+    confidentiality or both over the payload) sends CRC-protected bundles; every block as transmitted must carry the
+    CRC of its final content. '''
+    from props import bpsec_common as sc
+    kind = plan['secured_output']
+    ops = {'bib': [dict(type='bib', kid='mac256')], 'bcb': [dict(type='bcb', kid='enc256', ivs=['%024x' % (7 + ix) for ix in range(8)])]}
+    policy = [dict(src='.*', dst='.*', targets=[1], ops=ops[part]) for part in kind.split('+')]
+    har = sc.make_world(sched, policy, list(sc.KEYS.values()), False)
+    try:
+        for ix in range(2):
+            data = sc.source_bundle(har, 4000 + ix, bc.body(70 + ix, plan['pay_len']), [], pri_crc=plan['pri_crc'], pay_crc=plan['pay_crc'] or 1)
+            if data is None:
+                run.stats['out.secured_not_sent'] = run.stats.get('out.secured_not_sent', 0) + 1
+                continue
+            try:
+                dec = rfc9171.decode_bundle(data)
+            except rfc9171.Malformed as err:
+                run.viols.append(('output', 'secured-undecodable', 'bundle sent under a %s policy is not well-formed: %s' % (kind, err)))
+                return
+            run.stats['out.secured_checked'] = run.stats.get('out.secured_checked', 0) + 1
+            for blk in [dec['primary']] + dec['blocks']:
+                if not blk['crc_ok']:
+                    run.viols.append(('output', 'crc-invalid-under-%s-policy' % kind, 'block %s of a bundle sent under a %s policy carries a wrong CRC (type %d)' % (
+                        blk.get('num', 'primary'), kind, blk['crc_type'])))
+                    return
+    finally:
+        har.close()
 
 
 def _observed(har, mark):
